@@ -950,12 +950,16 @@ func rogueSuite(seed uint64, tier, outDir string) (*core.Result, error) {
 	if err := rogueLiveness(res); err != nil {
 		return nil, err
 	}
+	// ================= E. two overlapping sync rounds of a real client, one of them on a server that gets banned meanwhile
+	if err := rogueOverlap(res); err != nil {
+		return nil, err
+	}
 
 	res.Required = append(res.Required, "sweep.edge", "sweep.short-read", "sweep.stale", "rogue.edge-random", "rogue.edge-zero", "rogue.random-length",
 		"round.single-down", "round.all-banned", "round.all-failed", "round.six-servers", "attempt.refuse", "attempt.reset", "attempt.short",
 		"attempt.badsig", "attempt.stale", "attempt.future", "attempt.wrongdev", "attempt.badsrvsig", "attempt.badlen", "attempt.rogue-short",
 		"attempt.garbage", "attempt.tiny", "attempt.badmig", "attempt.refusal-byte", "attempt.success", "attempt.delayed", "attempt.early", "hist.load", "liveness.report-after-failed-sync", "liveness.sync-retried")
-	res.Rule = "A: every length prefix edge (0..65535) with unsigned bodies, short reads; B: contents of 64..1100 bytes correctly signed by the contacted server (random / zero), genuine replies mutated in the list region and re-signed; C: client histories over 1..6 scripted servers with per-round behaviours and restarts (non-trivial = at least one accepted reply, distinct by full transcript); D: real client with the reporting loop and a dead server"
+	res.Rule = "A: every length prefix edge (0..65535) with unsigned bodies, short reads; B: contents of 64..1100 bytes correctly signed by the contacted server (random / zero), genuine replies mutated in the list region and re-signed; C: client histories over 1..6 scripted servers with per-round behaviours and restarts (non-trivial = at least one accepted reply, distinct by full transcript); D: real client with the reporting loop and a dead / resetting / never-answering server; E: real client, two overlapping sync rounds (slow server banned by the fast one meanwhile)"
 	return res, nil
 }
 
@@ -1077,12 +1081,21 @@ func rogueLiveness(res *core.Result) error {
 		return err
 	}
 	defer peer.close()
-	for _, mode := range []string{"dial-refused", "reset"} {
+	for _, mode := range []string{"dial-refused", "reset", "hang"} {
 		srv := newKey()
 		tcp := deadPort()
 		if mode == "reset" {
 			tcp = peer.port
 			peer.setScript(func(int) peerAction { return peerAction{kind: actReset} })
+		}
+		if mode == "hang" { // the first connection is accepted, its request read, and never answered; later ones are reset
+			tcp = peer.port
+			peer.setScript(func(k int) peerAction {
+				if k == 0 {
+					return peerAction{kind: actDelayed, delay: 7 * time.Second}
+				}
+				return peerAction{kind: actReset}
+			})
 		}
 		udpPort := uint16(sink.LocalAddr().(*net.UDPAddr).Port)
 		cd, err := writeClientDir("verif-live-"+mode, newKey(), newKey().pub, 3, map[glow.PublicKey]client.GCAServer{
@@ -1135,8 +1148,9 @@ func rogueLiveness(res *core.Result) error {
 			res.Fail("after a failed sync round ("+mode+") the client stops emitting reports: the reading of the next timeslot never reaches the server",
 				"reporting-stopped", desc)
 		}
-		if mode == "reset" {
-			// sync is retried: several rounds within a few seconds while the status is "failed"
+		if mode == "reset" || mode == "hang" {
+			// sync is retried: several rounds within a few seconds while the status is "failed" -- also while
+			// an earlier attempt is still waiting for a server that never answers
 			dl := time.Now().Add(100 * tick)
 			rounds := 0
 			for time.Now().Before(dl) {
@@ -1150,7 +1164,7 @@ func rogueLiveness(res *core.Result) error {
 			}
 			res.Count("liveness.sync-retried")
 			if rounds < 3 {
-				res.Fail("the client does not try to sync again after a failed round", "sync-not-retried", map[string]interface{}{"connections": rounds})
+				res.Fail("the client does not try to sync again after a failed round ("+mode+")", "sync-not-retried", map[string]interface{}{"connections": rounds, "server": mode})
 			}
 		} else {
 			res.Count("liveness.sync-retried")
@@ -1163,6 +1177,153 @@ func rogueLiveness(res *core.Result) error {
 			res.Count("liveness.close-hangs")
 		}
 		os.RemoveAll(cd.dir)
+	}
+	return nil
+}
+
+// E: two sync rounds of a real client overlap.  Server X answers slowly (a correct reply that does not
+// mention its own ban), server Y answers at once and its GCA-signed list bans X.  Whatever the order in
+// which the two rounds finish, the client must not end up with X -- which it knows to be banned -- as
+// the server it reports to.  The first server a round contacts is the client's random choice: the
+// scenario is repeated until X was contacted first (otherwise the rounds do not overlap on X).
+func rogueOverlap(res *core.Result) error {
+	tab := &sigTab{}
+	for attempt := 0; attempt < 8; attempt++ {
+		gca, dev, kx, ky := newKey(), newKey(), newKey(), newKey()
+		sinkX, err := net.ListenUDP("udp", &net.UDPAddr{IP: net.ParseIP("127.0.0.1"), Port: 0})
+		if err != nil {
+			return err
+		}
+		sinkY, err := net.ListenUDP("udp", &net.UDPAddr{IP: net.ParseIP("127.0.0.1"), Port: 0})
+		if err != nil {
+			sinkX.Close()
+			return err
+		}
+		ux, uy := uint16(sinkX.LocalAddr().(*net.UDPAddr).Port), uint16(sinkY.LocalAddr().(*net.UDPAddr).Port)
+		var mu sync.Mutex
+		var toX, toXlate int
+		var banLearnt time.Time
+		go func() {
+			buf := make([]byte, 200)
+			for {
+				n, _, err := sinkX.ReadFromUDP(buf)
+				if err != nil {
+					return
+				}
+				if n == 80 {
+					mu.Lock()
+					toX++
+					if !banLearnt.IsZero() && time.Since(banLearnt) > 700*time.Millisecond {
+						toXlate++
+					}
+					mu.Unlock()
+				}
+			}
+		}()
+		var px, py *scriptPeer
+		reply := func(self keyPair, banX bool) []byte {
+			spec := replySpec{devKey: dev.pub, unixTime: uint64(time.Now().Unix())}
+			spec.servers = []server.AuthorizedServer{
+				mkAS(tab, gca, kx.pub, banX, "127.0.0.1", 9, px.port, ux),
+				mkAS(tab, gca, ky.pub, false, "127.0.0.1", 9, py.port, uy)}
+			return signedWire(tab, spec.content(), self)
+		}
+		px, err = newScriptPeer(func(int) peerAction { return peerAction{kind: actReset} })
+		if err != nil {
+			return err
+		}
+		py, err = newScriptPeer(func(int) peerAction { return peerAction{kind: actReset} })
+		if err != nil {
+			px.close()
+			return err
+		}
+		var firstX, firstY time.Time
+		px.setScript(func(k int) peerAction {
+			if firstX.IsZero() {
+				firstX = time.Now()
+			}
+			return peerAction{kind: actDelayed, delay: 450 * time.Millisecond, data: reply(kx, false)}
+		})
+		py.setScript(func(k int) peerAction {
+			if firstY.IsZero() {
+				firstY = time.Now()
+			}
+			mu.Lock()
+			if banLearnt.IsZero() {
+				banLearnt = time.Now()
+			}
+			mu.Unlock()
+			return peerAction{kind: actSend, data: reply(ky, true)}
+		})
+		cd, err := writeClientDir("verif-overlap", dev, gca.pub, 3, map[glow.PublicKey]client.GCAServer{
+			kx.pub: {Location: "127.0.0.1", HttpPort: 9, TcpPort: px.port, UdpPort: ux},
+			ky.pub: {Location: "127.0.0.1", HttpPort: 9, TcpPort: py.port, UdpPort: uy}})
+		if err != nil {
+			return err
+		}
+		os.WriteFile(filepath.Join(cd.dir, client.LastSyncFile), []byte("1"), 0644)
+		c, err := client.NewClient(cd.dir)
+		if err != nil {
+			return fmt.Errorf("overlap client does not start: %v", err)
+		}
+		// readings keep arriving, so the loop keeps reporting to its primary server
+		stop := make(chan struct{})
+		go func() {
+			for ts := uint32(1); ; ts++ {
+				select {
+				case <-stop:
+					return
+				default:
+				}
+				sRows := "timestamp,energy (mWh)\n"
+				for k := uint32(1); k <= ts; k++ {
+					sRows += fmt.Sprintf("%d,%d\n", int64(glow.GenesisTime)+int64(k)*300, 5000+k)
+				}
+				tmp := filepath.Join(cd.dir, "energy.tmp")
+				os.WriteFile(tmp, []byte(sRows), 0644)
+				os.Rename(tmp, filepath.Join(cd.dir, client.EnergyFile))
+				time.Sleep(70 * time.Millisecond)
+			}
+		}()
+		time.Sleep(2200 * time.Millisecond)
+		close(stop)
+		var st client.VerifClientState
+		locked := !client.VerifTryLock(c)
+		if !locked {
+			st = client.VerifState(c)
+		}
+		done := make(chan struct{})
+		go func() { c.Close(); close(done) }()
+		select {
+		case <-done:
+		case <-time.After(3 * time.Second):
+		}
+		sinkX.Close()
+		sinkY.Close()
+		px.close()
+		py.close()
+		os.RemoveAll(cd.dir)
+		xFirst := !firstX.IsZero() && (firstY.IsZero() || firstX.Before(firstY))
+		if !xFirst || firstY.IsZero() || locked {
+			res.Discarded++
+			continue // the rounds did not overlap on X this time
+		}
+		res.Count("overlap.judged")
+		knowsBan := false
+		for _, e := range st.Servers {
+			if e.Key == kx.pub && e.Server.Banned {
+				knowsBan = true
+			}
+		}
+		mu.Lock()
+		late := toXlate
+		mu.Unlock()
+		desc := map[string]interface{}{"kind": "overlapping-rounds", "knows_x_banned": knowsBan, "primary_is_x": st.PrimaryServer == kx.pub, "reports_to_x_after_ban": late}
+		res.Case(desc, fmt.Sprint("overlap", attempt), true)
+		if knowsBan && st.PrimaryServer == kx.pub {
+			res.Fail("after two overlapping sync rounds the client reports to a server it knows to be banned (the slow round, answered by the banned server itself, selected it again)", "selected-banned-after-overlap", desc)
+		}
+		return nil
 	}
 	return nil
 }
